@@ -156,7 +156,7 @@ fn send_body(inside: bool, qlen: usize) {
         if i == a {
             oblige!("C09.send.sender_unchanged_but_pending_op", n.op == Some((0, SEND)) && n.st == o.st && vv_eq(&n.causality, &o.causality));
         } else if o.op.map(|x| x.0) == Some(0) && o.st == StView::Blocked && co.msg_cnt == 0 {
-            oblige!("C09.send.first_message_wakes_blocked_receivers", n.st == (StView::Runnable { unparked: false }) && th_view_eq_except_state(&o, &n));
+            oblige!("C09.send.first_message_wakes_blocked_receivers", n.st == woken(&o) && !n.pending_unpark && th_view_eq_except_state(&o, &n));
         } else if o.op.map(|x| x.0) == Some(0) && has_token(&o) {
             oblige!("C08.token_kept.channel_send", th_view_eq(&o, &n));
         } else if o.op.map(|x| x.0) == Some(0) {
@@ -268,7 +268,7 @@ fn recv_body(inside: bool) {
             oblige!("C09.recv.receiver_only_view_and_op", n.st == o.st && n.op == Some((0, RECV)) && vv_eq(&n.released, &o.released));
         } else if o.op == Some((0, RECV)) && cn.msg_cnt == 0 {
             oblige!("C09.recv.emptying_blocks_other_pending_receivers", n.st == StView::Blocked && th_view_eq_except_state(&o, &n));
-            oblige!("C08.token_kept.channel_recv", !has_token(&o));
+            oblige!("C08.token_kept.channel_recv", has_token(&n) == has_token(&o));
         } else {
             oblige!("C09.recv.frame_other_threads", th_view_eq(&o, &n));
         }
